@@ -21,6 +21,7 @@ import (
 	"pgregory.net/rand"
 
 	"github.com/VKCOM/statshouse/internal/agent"
+	"github.com/VKCOM/statshouse/internal/aggregator"
 	"github.com/VKCOM/statshouse/internal/data_model"
 	"github.com/VKCOM/statshouse/internal/data_model/gen2/tlstatshouse"
 	"github.com/VKCOM/statshouse/internal/format"
@@ -29,6 +30,7 @@ import (
 
 const agentCompression = 2000 // a parameter of the tdigest library: large, so that the few centroids of a case are never merged
 const bucketTs = uint32(1_700_000_000)
+const stringTopCountSend = 3 // Shard config StringTopCountSend used by sampleBucket's FinishStringTop
 
 type tag = data_model.TagUnion
 
@@ -140,7 +142,7 @@ func takeSnap(mv *data_model.MultiValue) snap {
 // ---------------------------------------------------------------- generators (exact domain: small dyadic rationals)
 
 var hostPool = []tag{{}, {}, {I: 7}, {I: 9}, {S: "hosta"}, {S: "hostb"}}
-var topPool = []tag{{I: 1}, {I: 2}, {S: "x"}, {S: "yy"}, {I: 3, S: "z"}}
+var topPool = []tag{{I: 1}, {I: 2}, {S: "x"}, {S: "yy"}, {I: 3, S: "z"}, {I: 5}, {S: "w"}, {S: "v"}}
 var sfPool = []float64{1, 1, 2, 3, 10, 1.5, 2.25, 4, 7.5}
 
 func genValue(r *verifx.Rng, base float64) float64 {
@@ -176,6 +178,7 @@ type caseSpec struct {
 	sf       float64
 	events   []evSpec
 	aggHost  tag
+	cap      int // string-top capacity passed to MapStringTop (Shard config StringTopCapacity)
 }
 
 type caseCtx struct {
@@ -184,6 +187,52 @@ type caseCtx struct {
 	item   *data_model.MultiItem
 	hasPct bool
 	kinds  map[string]bool
+	cap    int
+	// state of the Top map before the current event (to observe what MapStringTop's random draws did)
+	keysBefore map[tag]bool
+	sfBefore   int
+}
+
+func topKeySet(item *data_model.MultiItem) map[tag]bool {
+	m := map[tag]bool{}
+	for k := range item.Top {
+		m[k] = true
+	}
+	return m
+}
+
+func sortedTags(m map[tag]bool) []string {
+	var ss []string
+	for k := range m {
+		ss = append(ss, tagStr(k))
+	}
+	sort.Strings(ss)
+	return ss
+}
+
+// drawSuffix renders what the random draws of MapStringTop did during the event just applied: capacity, whether the
+// event was redirected to Tail (`rng.Float64()*sf >= count` after a resample), the number of resample rounds and the
+// evicted keys (their order inside a round is not observable; rows that can resample use a single host tag, which
+// makes the fold order irrelevant).
+func (c *caseCtx) drawSuffix(key tag, applied bool) string {
+	after := topKeySet(c.item)
+	evicted := map[tag]bool{}
+	for k := range c.keysBefore {
+		if !after[k] {
+			evicted[k] = true
+		}
+	}
+	rounds := data_model.VerifC02SampleFactorLog2(c.item) - c.sfBefore
+	redirect := applied && !key.Empty() && !c.keysBefore[key] && !after[key]
+	if rounds > 0 {
+		c.h.Stat("agent.resample-rounds", int64(rounds))
+		c.h.Stat("agent.evicted", int64(len(evicted)))
+		c.h.NonTrivial("resampled")
+	}
+	if redirect {
+		c.h.Stat("agent.redirected-to-tail", 1)
+	}
+	return fmt.Sprintf("%d %s %d %s", c.cap, b2s(redirect), rounds, verifx.List(sortedTags(evicted)))
 }
 
 func genEvent(r *verifx.Rng, base float64, topNum int) evSpec {
@@ -238,11 +287,13 @@ func genEvent(r *verifx.Rng, base float64, topNum int) evSpec {
 // MapStringTop, then the MultiValue method) and prints the op and the observation.
 func (c *caseCtx) applyEvent(e evSpec) {
 	h := c.h
+	c.keysBefore = topKeySet(c.item)
+	c.sfBefore = data_model.VerifC02SampleFactorLog2(c.item)
 	top, host := e.top, e.host
 	key := top
 	key.Normalize()
 	target := func(count float64) *data_model.MultiValue {
-		return c.item.MapStringTop(c.rng, 100, top, count)
+		return c.item.MapStringTop(c.rng, c.cap, top, count)
 	}
 	pickOf := func(mv *data_model.MultiValue) string { return b2s(mv.Value.MaxCounterHostTag == host) }
 	switch e.kind {
@@ -323,10 +374,11 @@ func (c *caseCtx) finishEvent(mv *data_model.MultiValue, key tag, op string, pic
 	if mv != nil {
 		pick = pickOf(mv)
 	}
+	draws := c.drawSuffix(key, mv != nil)
 	if pct != "" {
-		c.h.Op("%s %s %s", op, pick, pct)
+		c.h.Op("%s %s %s %s", op, pick, pct, draws)
 	} else {
-		c.h.Op("%s %s", op, pick)
+		c.h.Op("%s %s %s", op, pick, draws)
 	}
 	if mv == nil { // event dropped by the Shard.Apply* guard: show the (unchanged) target, if any
 		if key.Empty() {
@@ -451,14 +503,30 @@ func genCase(h *verifx.H, r *verifx.Rng) caseSpec {
 	nstags := r.Pick(5, 3, 1)
 	for i := 0; i < nstags; i++ {
 		idx := []int{0, 1, 3, 16, 46, 47}[r.Intn(6)]
-		key.STags[idx] = []string{"a", "bc", "x1", ""}[r.Intn(4)]
+		if key.Tags[idx] == 0 { // a key position holds a mapped int or a string, never both (Key.SetTagUnion)
+			key.STags[idx] = []string{"a", "bc", "x1", ""}[r.Intn(4)]
+		}
 	}
 	sp.key = key
 	base := float64(r.Range(-5, 12))
 	nev := r.Range(1, 6)
 	topNum := []int{0, 2, 4}[r.Pick(2, 3, 3)] // rows without string tops, with a few, with many
+	sp.cap = 100
+	if r.Chance(1, 3) { // small string-top capacity: MapStringTop resamples
+		sp.cap = 3
+		topNum = 4
+		nev = r.Range(3, 8)
+	}
 	for i := 0; i < nev; i++ {
 		sp.events = append(sp.events, genEvent(r, base, topNum))
+	}
+	if sp.cap < 100 || !sp.noSample {
+		// entries may be folded into Tail (resample / FinishStringTop) in an unobservable order: one host tag per row
+		// makes the result independent of that order
+		host := hostPool[r.Intn(len(hostPool))]
+		for i := range sp.events {
+			sp.events[i].host = host
+		}
 	}
 	sp.sf = sfPool[r.Intn(len(sfPool))]
 	sp.aggHost = []tag{{I: 1000}, {I: 1000}, {S: "agenthost"}}[r.Intn(3)]
@@ -487,6 +555,11 @@ func corpus() [][]caseSpec {
 		{{key: k(301), sf: 1, aggHost: tag{I: 1000}, events: []evSpec{val(tag{S: "a"}, 1), val(tag{S: "b"}, 2), {kind: 'c', count: 1}}},
 			{key: k(302), sf: 1, aggHost: tag{I: 1000}, events: []evSpec{val(tag{S: "c"}, 3)}},
 			{key: k(303), sf: 1, aggHost: tag{I: 1000}, events: []evSpec{val(tag{}, 5)}}},
+		// string-top capacity 3, four distinct keys: MapStringTop resamples and folds evicted entries into Tail
+		{{key: k(401), noSample: true, sf: 2, cap: 3, aggHost: tag{I: 1000}, events: []evSpec{val(tag{S: "a"}, 1), val(tag{S: "b"}, 2), val(tag{S: "c"}, 3), val(tag{S: "d"}, 4), val(tag{S: "e"}, 5)}}},
+		// sampler path, five string tops, StringTopCountSend = 3: FinishStringTop folds the two smallest into Tail
+		{{key: k(402), sf: 1, aggHost: tag{I: 1000}, events: []evSpec{val(tag{S: "a"}, 1), {kind: 'v', top: tag{S: "b"}, vals: []float64{2, 2}}, {kind: 'v', top: tag{S: "c"}, vals: []float64{3, 3, 3}},
+			{kind: 'v', top: tag{S: "d"}, vals: []float64{4, 4, 4, 4}}, {kind: 'v', top: tag{S: "e"}, vals: []float64{5, 5, 5, 5, 5}}}}},
 	}
 }
 
@@ -500,18 +573,55 @@ type rowRun struct {
 	topSnap  map[tag]snap
 	topKeys  []tag
 	centOps  []string
+	// Top keys before sampleBucket (its FinishStringTop may fold some into Tail)
+	keysBefore map[tag]bool
+	finOp      string
+}
+
+// snapshotSent records the row as it is after sampleBucket (= as keepF saw it: FinishStringTop already applied): the
+// oracle's reference, the centroids each digest reports, and what FinishStringTop folded into Tail.
+func (rr *rowRun) snapshotSent(stringTopCountSend int) {
+	item := rr.item
+	rr.tailSnap = takeSnap(&item.Tail)
+	rr.topSnap = map[tag]snap{}
+	if item.Tail.ValueTDigest != nil {
+		rr.centOps = append(rr.centOps, fmt.Sprintf("cents - %s", viewDigest(&item.Tail).str(true)))
+	}
+	for k := range item.Top {
+		rr.topKeys = append(rr.topKeys, k)
+	}
+	sort.Slice(rr.topKeys, func(i, j int) bool { return tagStr(rr.topKeys[i]) < tagStr(rr.topKeys[j]) })
+	for _, k := range rr.topKeys {
+		mv := item.Top[k]
+		rr.topSnap[k] = takeSnap(mv)
+		if mv.ValueTDigest != nil {
+			rr.centOps = append(rr.centOps, fmt.Sprintf("cents %s %s", tagStr(k), viewDigest(mv).str(true)))
+		}
+	}
+	if !rr.sp.noSample { // sampler path: FinishStringTop(rnd, config.StringTopCountSend) ran
+		folded := map[tag]bool{}
+		for k := range rr.keysBefore {
+			if _, ok := item.Top[k]; !ok {
+				folded[k] = true
+			}
+		}
+		rr.finOp = fmt.Sprintf("fin %d %s", stringTopCountSend, verifx.List(sortedTags(folded)))
+	}
 }
 
 // runBucket: phase 1 builds every row of the bucket with the real API; phase 2 runs the real sampleBucket ONCE over the
 // whole bucket and serialises the SourceBucket3 only after all rows were kept (as preProcess does), then reads it back;
 // phase 3 merges every decoded row on the aggregator side.  The model treats the rows independently.
-func runBucket(h *verifx.H, r *verifx.Rng, sh *agent.VerifC02Shard, specs []caseSpec) {
+func runBucket(h *verifx.H, r *verifx.Rng, sh *agent.VerifC02Shard, agg *aggregator.VerifC02Agg, specs []caseSpec) {
 	rng := rand.New(r.U64())
 	bucket := &data_model.MetricsBucket{Time: bucketTs}
 	rows := make([]*rowRun, 0, len(specs))
 	withTops := 0
 	for _, sp := range specs {
-		c := &caseCtx{h: h, rng: rng, kinds: map[string]bool{}, hasPct: sp.hasPct}
+		if sp.cap == 0 {
+			sp.cap = 100
+		}
+		c := &caseCtx{h: h, rng: rng, kinds: map[string]bool{}, hasPct: sp.hasPct, cap: sp.cap}
 		key := sp.key
 		meta := &format.MetricMetaValue{MetricID: key.Metric, NoSampleAgent: sp.noSample, HasPercentiles: sp.hasPct,
 			EffectiveResolution: 1, EffectiveWeight: 1}
@@ -522,23 +632,8 @@ func runBucket(h *verifx.H, r *verifx.Rng, sh *agent.VerifC02Shard, specs []case
 		for _, e := range sp.events {
 			c.applyEvent(e)
 		}
-		// snapshot for the oracle, observed centroids for the model
-		rr := &rowRun{sp: sp, key: key, item: item, kinds: c.kinds, tailSnap: takeSnap(&item.Tail), topSnap: map[tag]snap{}}
-		if item.Tail.ValueTDigest != nil {
-			rr.centOps = append(rr.centOps, fmt.Sprintf("cents - %s", viewDigest(&item.Tail).str(true)))
-		}
-		for k := range item.Top {
-			rr.topKeys = append(rr.topKeys, k)
-		}
-		sort.Slice(rr.topKeys, func(i, j int) bool { return tagStr(rr.topKeys[i]) < tagStr(rr.topKeys[j]) })
-		for _, k := range rr.topKeys {
-			mv := item.Top[k]
-			rr.topSnap[k] = takeSnap(mv)
-			if mv.ValueTDigest != nil {
-				rr.centOps = append(rr.centOps, fmt.Sprintf("cents %s %s", tagStr(k), viewDigest(mv).str(true)))
-			}
-		}
-		if len(rr.topKeys) > 0 {
+		rr := &rowRun{sp: sp, key: key, item: item, kinds: c.kinds, keysBefore: topKeySet(item)}
+		if len(item.Top) > 0 {
 			withTops++
 		}
 		item.SF = sp.sf
@@ -554,6 +649,9 @@ func runBucket(h *verifx.H, r *verifx.Rng, sh *agent.VerifC02Shard, specs []case
 	}
 	// ---- send: the real sampleBucket (keepF) over the whole bucket, then the real TL bytes
 	sb := sh.VerifC02SampleBucket(bucket, rng)
+	for _, rr := range rows {
+		rr.snapshotSent(stringTopCountSend)
+	}
 	wire := sb.WriteTL1Boxed(nil)
 	var rb tlstatshouse.SourceBucket3Bytes
 	if _, err := rb.ReadTL1Boxed(wire); err != nil {
@@ -567,8 +665,36 @@ func runBucket(h *verifx.H, r *verifx.Rng, sh *agent.VerifC02Shard, specs []case
 	if len(rb.Metrics) != len(rows) {
 		h.Viol("agg-row-count", "bucket of %d rows arrived with %d rows", len(rows), len(rb.Metrics))
 	}
+	// ---- aggregator: the REAL handleSendSourceBucket gets its own decoded copy (it rewrites mapped strings in place)
+	var rb2 tlstatshouse.SourceBucket3Bytes
+	if _, err := rb2.ReadTL1Boxed(wire); err != nil {
+		h.Obs("tl read-error")
+		return
+	}
+	hostName := "agenthost"
+	ctx := &bucketCtx{aggHost: tag{S: hostName}, aggRows: map[int32][]*data_model.MultiItem{}}
+	if specs[0].aggHost.I != 0 {
+		hostName = "agentmapped"
+		ctx.aggHost = tag{I: mappings[hostName]}
+	}
+	res := agg.Receive(bucketTs, hostName, rb2)
+	if res.Err != nil || !res.Longpoll {
+		h.Viol("agg-handler", "handleSendSourceBucket refused a valid bucket: warning=%q err=%v discard=%v", res.Warning, res.Err, res.Discard)
+		return
+	}
+	for _, mi := range res.Rows {
+		ctx.aggRows[mi.Key.Metric] = append(ctx.aggRows[mi.Key.Metric], mi)
+	}
 	for i, rr := range rows {
 		h.Op("sel %d", i)
+		if rr.finOp != "" {
+			h.Op("%s", rr.finOp)
+			h.Obs("fin tops=%d", len(rr.item.Top))
+			if len(rr.keysBefore) > len(rr.item.Top) {
+				h.Stat("agent.finish-folded", int64(len(rr.keysBefore)-len(rr.item.Top)))
+				h.NonTrivial("finish-folded")
+			}
+		}
 		for _, op := range rr.centOps {
 			h.Op("%s", op)
 		}
@@ -577,11 +703,11 @@ func runBucket(h *verifx.H, r *verifx.Rng, sh *agent.VerifC02Shard, specs []case
 			h.Viol("agg-row-count", "row of metric %d arrived %d times", rr.key.Metric, len(items))
 			continue
 		}
-		mergeRow(h, rng, rr, items[0])
+		mergeRow(h, rng, rr, items[0], ctx)
 	}
 }
 
-func mergeRow(h *verifx.H, rng *rand.Rand, rr *rowRun, it *tlstatshouse.MultiItemBytes) {
+func mergeRow(h *verifx.H, rng *rand.Rand, rr *rowRun, it *tlstatshouse.MultiItemBytes, ctx *bucketCtx) {
 	sp, key, item := rr.sp, rr.key, rr.item
 	tailSnap, topSnap, topKeys := rr.tailSnap, rr.topSnap, rr.topKeys
 	c := &caseCtx{h: h, rng: rng, kinds: rr.kinds, hasPct: sp.hasPct}
@@ -642,19 +768,10 @@ func mergeRow(h *verifx.H, rng *rand.Rand, rr *rowRun, it *tlstatshouse.MultiIte
 	if !cmpc {
 		h.Stat("agg.digest-by-weight-only", 1)
 	}
-	// ---- aggregator: KeyFromStatshouseMultiItem + Skeys loop of handleSendSourceBucket (no mapping known) + MergeWithTLMultiItem
-	aggHost := sp.aggHost
-	h.Op("merge %s %s", tagStr(aggHost), b2s(cmpc))
-	k, warn := data_model.KeyFromStatshouseMultiItem(it, bucketTs)
-	for i, s := range it.Skeys {
-		if i >= format.MaxTags {
-			break
-		}
-		k.STags[i] = string(s)
-	}
-	var aggMap data_model.MultiItemMap
-	mi, _ := aggMap.GetOrCreateMultiItem(&k, nil, nil)
-	ierr := mi.MergeWithTLMultiItem(c.rng, data_model.AggregatorStringTopCapacity, it, aggHost)
+	// ---- aggregator: the row the REAL handleSendSourceBucket left in its aggregatorBucket for this metric
+	aggHost := ctx.aggHost
+	h.Op("merge %s %s %s", tagStr(aggHost), b2s(cmpc), mappingsStr)
+	_, warn := data_model.KeyFromStatshouseMultiItem(it, bucketTs) // pure function; only the warning is taken from this call
 	w := 0
 	switch warn {
 	case 0:
@@ -665,19 +782,14 @@ func mergeRow(h *verifx.H, rng *rand.Rand, rr *rowRun, it *tlstatshouse.MultiIte
 	default:
 		w = 9
 	}
-	e := 0
-	switch ierr {
-	case 0:
-	case format.TagValueIDSrcIngestionStatusErrNegativeCounter:
-		e = 1
-	case format.TagValueIDSrcIngestionStatusErrTooBigCounter:
-		e = 2
-	case format.TagValueIDSrcIngestionStatusErrTooBigValue:
-		e = 3
-	default:
-		e = 9
+	mis := ctx.aggRows[key.Metric]
+	if len(mis) != 1 {
+		h.Obs("agg rows=%d", len(mis))
+		h.Viol("agg-row-count", "row of metric %d is held %d times by the aggregator bucket", key.Metric, len(mis))
+		return
 	}
-	h.Obs("agg key %s warn=%d err=%d", keyStr(&mi.Key), w, e)
+	mi := mis[0]
+	h.Obs("agg key %s warn=%d", keyStr(&mi.Key), w)
 	h.Obs("%s", mvStr(cmpc, "agg tail", &mi.Tail))
 	var aggLines []string
 	for tk, tv := range mi.Top {
@@ -694,35 +806,57 @@ func mergeRow(h *verifx.H, rng *rand.Rand, rr *rowRun, it *tlstatshouse.MultiIte
 	if it.Tail.IsSetValueSet(m) && !it.Tail.IsSetValueMax(m) {
 		h.NonTrivial("compact-form")
 	}
-	// ---- direct oracle: aggregator row == sf x agent row
+	// ---- direct oracle: aggregator row == sf x agent row (strings the aggregator has a mapping for replaced by their ids)
 	o := &oracle{h: h, sf: sf, host: aggHost, hasPct: c.hasPct}
+	want := key
+	for i := range want.STags {
+		if m, ok := mappings[want.STags[i]]; ok && want.STags[i] != "" {
+			want.Tags[i] = m
+			want.STags[i] = ""
+		}
+	}
 	if key.Timestamp != 0 && key.Timestamp <= bucketTs && bucketTs-key.Timestamp <= data_model.BelieveTimestampWindow {
-		if mi.Key != key {
+		if mi.Key != want {
 			h.Viol("agg-key", "agent key {%s} arrived as {%s}", keyStr(&key), keyStr(&mi.Key))
 		}
 	} else {
 		h.Stat("oracle.key-outside-window", 1)
-		kk := key
-		kk.Timestamp = mi.Key.Timestamp
-		if mi.Key != kk {
+		want.Timestamp = mi.Key.Timestamp
+		if mi.Key != want {
 			h.Viol("agg-key", "agent key {%s} arrived as {%s}", keyStr(&key), keyStr(&mi.Key))
 		}
-	}
-	if ierr != 0 {
-		h.Viol("agg-error", "valid row rejected with ingestion status %d", ierr)
 	}
 	if len(mi.Top) != len(topSnap) {
 		h.Viol("agg-top-keys", "agent has %d string-top keys, aggregator %d", len(topSnap), len(mi.Top))
 	}
 	o.compare("tail", tailSnap, &mi.Tail)
 	for _, tk := range topKeys {
-		tv, ok := mi.Top[tk]
+		tv, ok := mi.Top[mapTag(tk)]
 		if !ok {
 			h.Viol("agg-top-keys", "string-top key %s missing on the aggregator", tagStr(tk))
 			continue
 		}
 		o.compare(tagStr(tk), topSnap[tk], tv)
 	}
+}
+
+// mappings: the string -> int32 pairs the aggregator knows.  hostb -> 7 collides on purpose with the int host tag 7.
+var mappings = map[string]int32{"agentmapped": 1000, "hostb": 7, "bc": 41, "yy": 77}
+
+const mappingsStr = "agentmapped:1000,bc:41,hostb:7,yy:77"
+
+func mapTag(t tag) tag {
+	if t.I == 0 && t.S != "" {
+		if m, ok := mappings[t.S]; ok {
+			return tag{I: m}
+		}
+	}
+	return t
+}
+
+type bucketCtx struct {
+	aggHost tag
+	aggRows map[int32][]*data_model.MultiItem
 }
 
 type oracle struct {
@@ -736,7 +870,7 @@ func (o *oracle) sub(t tag) tag {
 	if t.Empty() {
 		return o.host
 	}
-	return t
+	return mapTag(t)
 }
 
 func (o *oracle) scaled(x float64) *big.Rat { return new(big.Rat).Mul(rat(x), rat(o.sf)) }
@@ -817,7 +951,11 @@ func (o *oracle) compare(name string, a snap, g *data_model.MultiValue) {
 
 func main() {
 	h := verifx.New()
-	sh := agent.VerifC02NewShard(20, 100_000_000, bucketTs)
+	sh := agent.VerifC02NewShard(stringTopCountSend, 100_000_000, bucketTs)
+	agg, err := aggregator.VerifC02NewAgg(int32(bucketTs%3)+1, mappings)
+	if err != nil {
+		panic(err)
+	}
 	h.Cases(func(i int, r *verifx.Rng) {
 		defer func() {
 			if p := recover(); p != nil {
@@ -826,7 +964,7 @@ func main() {
 		}()
 		if h.Mode == "corpus" {
 			if cs := corpus(); i < len(cs) {
-				runBucket(h, r, sh, cs[i])
+				runBucket(h, r, sh, agg, cs[i])
 			}
 			return
 		}
@@ -836,7 +974,7 @@ func main() {
 			specs[j] = genCase(h, r)
 			specs[j].key.Metric = int32(100 + 1000*j + r.Intn(1000)) // distinct metrics: rows are matched by metric id
 		}
-		runBucket(h, r, sh, specs)
+		runBucket(h, r, sh, agg, specs)
 	})
 	h.Done()
 }
